@@ -251,6 +251,21 @@ func missing(st int) string {
 	return strings.Join(m, " and ")
 }
 
+// boundedProg is the program the bound prover looks call sites up in.
+var boundedProg *eng.Prog
+
+// UseProg tells the shared provers which program is being analysed.
+func UseProg(p *eng.Prog) { boundedProg = p }
+
+func sameIntSize(a, b types.Type) bool {
+	ba, ok1 := a.Underlying().(*types.Basic)
+	bb, ok2 := b.Underlying().(*types.Basic)
+	if !ok1 || !ok2 || ba.Info()&types.IsInteger == 0 || bb.Info()&types.IsInteger == 0 {
+		return false
+	}
+	return ba.Kind() == bb.Kind()
+}
+
 // boundFacts: is v <= hi (upper=true) or v >= lo proven at the start of block at?
 func bounded(fn *ssa.Function, v ssa.Value, k int64, upper bool, at *ssa.BasicBlock, depth int) bool {
 	if depth > 6 {
@@ -261,6 +276,43 @@ func bounded(fn *ssa.Function, v ssa.Value, k int64, upper bool, at *ssa.BasicBl
 			return cst <= k
 		}
 		return cst >= k
+	}
+	// a conversion between integer types of the same size keeps the order (int <-> a named int)
+	switch x := v.(type) {
+	case *ssa.ChangeType:
+		if bounded(fn, x.X, k, upper, at, depth+1) {
+			return true
+		}
+	case *ssa.Convert:
+		if sameIntSize(x.X.Type(), x.Type()) && bounded(fn, x.X, k, upper, at, depth+1) {
+			return true
+		}
+	case *ssa.Parameter:
+		// a parameter (or receiver) of an unexported helper: bounded when the argument is bounded at every call site
+		if obj, ok := fn.Object().(*types.Func); ok && !obj.Exported() && boundedProg != nil {
+			idx := -1
+			for i, p := range fn.Params {
+				if p == x {
+					idx = i
+				}
+			}
+			n, all := 0, true
+			for _, g := range boundedProg.ModuleFuncs() {
+				if g.Pkg != fn.Pkg {
+					continue
+				}
+				for _, ci := range eng.Calls(g, true, func(_ string, ci ssa.CallInstruction) bool { return eng.StaticCallee(ci) == fn }) {
+					n++
+					args := ci.Common().Args
+					if idx < 0 || idx >= len(args) || !bounded(ci.Parent(), args[idx], k, upper, ci.Block(), depth+2) {
+						all = false
+					}
+				}
+			}
+			if n > 0 && all {
+				return true
+			}
+		}
 	}
 	// min(x, y) is <= k when one operand is and >= k when both are; max is the dual
 	if kind, args, ok := minMaxCall(v); ok {
